@@ -11,8 +11,7 @@ BIN="$VERIF_DIR/.bin"; mkdir -p "$BIN"
 sed "s#=> /repo#=> $VERIF_REPO#" "$HERE/go.mod" > "$SCRATCH/go.mod"
 cp "$HERE/go.sum" "$SCRATCH/go.sum"
 export VERIF_MODFILE="$SCRATCH/go.mod"
-cd "$HERE"
-if ! go build -modfile="$SCRATCH/go.mod" -o "$BIN/vcheck" ./cmd/vcheck 2> "$SCRATCH/build.log"; then
+if ! go build -C "$HERE" -modfile="$SCRATCH/go.mod" -o "$BIN/vcheck" ./cmd/vcheck 2> "$SCRATCH/build.log"; then
   cat "$SCRATCH/build.log" >&2
   echo "HARNESS-ERROR property=$ID harness does not build against $VERIF_REPO" >&2
   exit 2
